@@ -16,6 +16,10 @@ AREA = {
     "structure": ["C11", "C14", "C17", "C18", "C02", "C06", "C04", "C01", "C09", "C08"],
     "types": ["C05", "C01", "C02", "C07", "C16", "C12", "C08", "C09", "C19"],
     "utils_stubgen": ["C19", "C20"],
+    # second round, written against the repaired tree
+    "structure2": ["C11", "C14", "C17", "C18", "C02", "C06", "C04", "C01", "C09", "C08", "C03"],
+    "parser2": ["C13", "C12", "C20", "C10", "C07", "C05", "C04", "C18", "C16"],
+    "stubgen2": ["C19", "C20"],
 }
 
 
